@@ -33,7 +33,9 @@ Args == <<
   O("arr:bytes-4", Bytes(<<240, 159, 152, 128>>)),
   O("arr:int-and-str", ArrE(<<N(1), L(S(<<97>>))>>)), O("arr:nested", ArrE(<<ArrE(<<N(1)>>)>>)),
   O("map:empty", MapE(<<>>)), O("map:1", MapE(<< <<N(1), N(2)>>, <<L(S(<<97>>)), L(Null)>> >>)),
-  O("fn", FnE(<<>>, <<>>)), O("builtin:len", Id("len"))
+  O("fn", FnE(<<>>, <<>>)), O("builtin:len", Id("len")),
+  \* (appended later: numbers that equal an integer key / element of the containers above in another kind)
+  O("float:1", L(F("dy", 1, 0))), O("float:3", L(F("dy", 3, 0))), O("byte:1", L(By(1)))
 >>
 NA == Len(Args)
 \* reduced set (indices into Args) for undocumented arities and third arguments
